@@ -496,19 +496,53 @@ theorem lcskpp_event_order (ms : List M) (k : Nat) (hk : 0 < k) (p q : Nat) (hq 
     simp only [startEv, endEv] at h
     omega
 
-/-- **the Fenwick query of a start event = maximum over the dominated matches.**  At any point of the sweep that
-satisfies the loop invariant (`Inv`, proved to hold throughout: `sweep_inv`), when the start event of match `p` is next,
-`max_col_dp.get(y_p)` returns as score the maximum final score `A` of the matches ending at or before `(x_p, y_p)` in both
-coordinates (0 if none), and when it is positive the returned index is such a match, already finished, with that score. -/
+/-- **the loop invariant holds at every point of the sweep**: for every split of the sorted event vector, the state
+reached after the processed part satisfies `Inv` (tree = Fenwick run over exactly the published `(y+k, (score, index))` of the
+finished matches; finished cells carry the recurrence's score, started cells `k` + best dominated score; every predecessor
+pointer is justified; `best_dp` bounds the started cells and is attained or still `(k, 0)`) -/
+theorem lcskpp_sweep_invariant (ms : List M) (k : Nat) (hk : 0 < k) (hs : ms.Pairwise lexLt) (done rest : List Ev)
+    (h : sortedEvents ms k = done ++ rest) : Inv ms k done (done.foldl (stepEv ms k) (initSt ms k)) :=
+  sweep_inv_prefix hk hs h
+
+/-- **the Fenwick query of a start event = maximum over the dominated matches.**  Whenever the start event of match `p`
+(`startEv ms p = (x_p, y_p, p + len)`) is the next event of the sweep, `max_col_dp.get(y_p)` on the state reached so far
+returns a pair whose score bounds the final score (`dpScores`) of every match `q` that ends at or before `(x_p, y_p)` in both
+coordinates (`nonov`), and either there is no such match and the score is 0, or the pair is exactly (final score of `q`, `q`)
+for such a match — processing order (all dominated matches have published, nothing else with a column `≤ y_p` has) plus the
+prefix-maximum semantics of the tree (C18). -/
 theorem lcskpp_query_is_max_over_dominated (ms : List M) (k : Nat) (hk : 0 < k) (hs : ms.Pairwise lexLt)
-    (done rest : List Ev) (s : St) (p : Nat) (hp : p < ms.length)
-    (hpos : sortedEvents ms k = done ++ startEv ms p :: rest) (hI : Inv ms k done s) :
+    (done rest : List Ev) (p : Nat) (hp : p < ms.length)
+    (hpos : sortedEvents ms k = done ++ startEv ms p :: rest) :
+    let s := done.foldl (stepEv ms k) (initSt ms k)
     let b := Model.Fenwick.get maxNN (0, 0) s.tree (mAt ms p).2
-    b.1 = A ms k p ∧
-    (0 < b.1 → ∃ q, q < ms.length ∧ b.2 = q ∧ endEv ms k q ∈ done ∧ nonov k (mAt ms q) (mAt ms p) = true ∧
-      b.1 = F ms k q) := by
+    (∀ q, q < ms.length → nonov k (mAt ms q) (mAt ms p) = true → (dpScores ms k).getD q 0 ≤ b.1) ∧
+    ((b.1 = 0 ∧ ∀ q, q < ms.length → nonov k (mAt ms q) (mAt ms p) = false) ∨
+     ∃ q, q < ms.length ∧ nonov k (mAt ms q) (mAt ms p) = true ∧ b = ((dpScores ms k).getD q 0, q)) := by
+  have hI := sweep_inv_prefix hk hs hpos
   obtain ⟨_, hbefore, hcomplete⟩ := split_facts (sortedEvents_pairwise ms k) (sortedEvents_nodup ms k) hpos
-  exact query_spec hk hs hI hp hbefore hcomplete
+  obtain ⟨h1, h2⟩ := query_spec hk hs hI hp hbefore hcomplete
+  have hub : ∀ q, q < ms.length → nonov k (mAt ms q) (mAt ms p) = true →
+      (dpScores ms k).getD q 0 ≤ (Model.Fenwick.get maxNN (0, 0) (done.foldl (stepEv ms k) (initSt ms k)).tree (mAt ms p).2).1 := by
+    intro q hq hn
+    rw [h1]
+    exact le_max0_of_mem (List.mem_map.mpr ⟨(mAt ms q, F ms k q), List.mem_filter.mpr ⟨mem_table_F hq, hn⟩, rfl⟩)
+  refine ⟨hub, ?_⟩
+  by_cases hpos' : 0 < (Model.Fenwick.get maxNN (0, 0) (done.foldl (stepEv ms k) (initSt ms k)).tree (mAt ms p).2).1
+  · right
+    obtain ⟨q, hq, hb2, _, hn, hb1⟩ := h2 hpos'
+    exact ⟨q, hq, hn, Prod.ext hb1 hb2⟩
+  · left
+    refine ⟨by omega, ?_⟩
+    intro q hq
+    rw [Bool.eq_false_iff]; intro hn
+    have h3 := hub q hq hn
+    have h4 : k ≤ (dpScores ms k).getD q 0 := k_le_F hk hs hq
+    omega
+
+/-- the hypothesis of the previous theorem is satisfiable for every match: its start event occurs in the sorted vector -/
+theorem lcskpp_start_event_occurs (ms : List M) (k : Nat) (p : Nat) (hp : p < ms.length) :
+    ∃ done rest, sortedEvents ms k = done ++ startEv ms p :: rest :=
+  List.append_of_mem ((mem_sortedEvents ms k _).mpr ⟨p, hp, Or.inl rfl⟩)
 
 /-- **the sweep computes the forward recurrence**: after the loop the score of every `dp` cell is the cell of
 `dpScores` (the recurrence evaluated directly, `dp_cell_is_best_chain_ending`), for every strictly sorted match list
